@@ -41,7 +41,8 @@ func c14(x *Ctx) {
 		case strings.HasPrefix(fn.Name(), "getSamplerRules") || strings.Contains(strings.ToLower(fn.Name()), "query") || fn.Name() == "getSamplerRules":
 			c.Hold(r1, key, x.Pos(s.Instr), "query endpoint: the caller names the destination explicitly")
 		default:
-			c.Decide(fromDet(arg), r1, key, x.Pos(s.Instr), "lookup key derives from DetermineSamplerKey", "a sampler is looked up under a key that does not come from DetermineSamplerKey (e.g. the raw dataset): traces with an environment key are sampled by the wrong definition or fall back to __default__")
+			must := x.mustDerive(arg, func(w ssa.Value) bool { return isCallValue(w, nDet) })
+			c.Decide(fromDet(arg) && must, r1, key, x.Pos(s.Instr), "lookup key derives from DetermineSamplerKey on every path", "a sampler is looked up under a key that does not come from DetermineSamplerKey (e.g. the raw dataset): traces with an environment key are sampled by the wrong definition or fall back to __default__")
 		}
 	}
 	c.Min(r1, 3)
@@ -143,6 +144,93 @@ func c14(x *Ctx) {
 		c.Decide(got == "param,const:__default__", r4, fn, x.PosOf(f.Pos()), "looks up the given name, then __default__", fn+" performs the lookups ["+got+"] instead of [name, __default__]: ingestion-time field extraction and decision-time sampler choice disagree for destinations without their own sampler")
 	}
 	c.Min(r4, 2)
+
+	// ---- the two lookups answer from the rules in force, not from a copy kept across reloads ---------------------
+	const r4b = "C14.lookup-from-current-rules"
+	for _, fn := range []string{"GetSamplerConfigForDestName", "GetSamplingKeyFieldsForDestName"} {
+		f := x.P.Func("config", "fileConfig", fn)
+		if f == nil || f.Blocks == nil {
+			continue
+		}
+		rulesF := eng.FieldIs("config", "fileConfig", "rulesConfig")
+		seen := map[ssa.Value]bool{}
+		var fromRules func(v ssa.Value) bool
+		fromRules = func(v ssa.Value) bool {
+			if v == nil || seen[v] {
+				return true
+			}
+			seen[v] = true
+			switch y := v.(type) {
+			case *ssa.Const:
+				return true
+			case *ssa.Phi:
+				for _, e := range y.Edges {
+					if !fromRules(e) {
+						return false
+					}
+				}
+				return true
+			case *ssa.Extract:
+				return fromRules(y.Tuple)
+			case *ssa.Lookup:
+				return fromRules(y.X)
+			case *ssa.TypeAssert:
+				return fromRules(y.X)
+			case *ssa.MakeInterface:
+				return fromRules(y.X)
+			case *ssa.ChangeInterface:
+				return fromRules(y.X)
+			case *ssa.Field:
+				return fromRules(y.X)
+			case *ssa.FieldAddr:
+				if fr, _, ok := eng.FieldRefOf(y); ok && fr.Struct != nil && fr.Struct.Obj().Name() == "fileConfig" {
+					return rulesF(fr)
+				}
+				return fromRules(y.X)
+			case *ssa.UnOp:
+				return fromRules(y.X)
+			case *ssa.Slice:
+				return fromRules(y.X)
+			case *ssa.Call:
+				if y.Call.IsInvoke() {
+					return fromRules(y.Call.Value)
+				}
+				if cal := y.Call.StaticCallee(); cal != nil && cal.Signature.Recv() != nil && len(y.Call.Args) > 0 {
+					return fromRules(y.Call.Args[0])
+				}
+				// a plain function of derived values
+				for _, a := range y.Call.Args {
+					if !fromRules(a) {
+						return false
+					}
+				}
+				return len(y.Call.Args) > 0
+			case *ssa.Alloc:
+				for _, st := range eng.StoresTo(y, nil) {
+					if !fromRules(st.Val) {
+						return false
+					}
+				}
+				return true
+			case *ssa.Parameter:
+				return y != f.Params[0] // the name asked for is fine; the receiver as a whole is not "the rules"
+			}
+			return false
+		}
+		c.Examined++
+		bad := ""
+		eng.Instrs(f, func(in ssa.Instruction) {
+			ret, ok := in.(*ssa.Return)
+			if !ok || len(ret.Results) == 0 {
+				return
+			}
+			if !fromRules(ret.Results[0]) {
+				bad = x.Pos(ret)
+			}
+		})
+		c.Decide(bad == "", r4b, fn, x.PosOf(f.Pos()), "every answer is computed from the rules configuration currently in force",
+			fn+" can answer ("+bad+") from something other than the rules configuration currently in force (a cache kept in another field): after a rules reload it keeps answering with the previous rules, so the fields extracted at ingestion and the sampler chosen at decision time disagree")
+	}
 
 	// ---- memoize before decide ----------------------------------------------------------------------
 	const r5 = "C14.memoize-before-decide"
